@@ -86,7 +86,12 @@ def _locate_slice_strict(values, start, stop, step, issorted=False):
     istop = locate_one(values, stop, issorted=issorted) if stop is not None else None
     # include last element
     if stop is not None:
-        istop += -1+2*(step is None or step>0)
+        if step is None or step > 0:
+            istop += 1
+        elif istop == 0:
+            istop = None  # down to the first element included (-1 would mean the last one)
+        else:
+            istop -= 1
     return istart, istop
 
 def locate_slice(values, start, stop, step, issorted=False):
